@@ -26,6 +26,9 @@ CHECKS = {
  "C05": ("exploration", "destination-side byte assembly monitor: committed bytes / layout file vs the caller's bytes over hostile-but-conforming upload servers",
          "12 k uploads per quick run (200 k thorough) over blob lengths on every chunk boundary x declared descriptor (absent / correct / wrong digest / short / long / size-only / digest-only) x source kinds x chunk / max-put settings (per host and client wide) x server behaviours inside the distribution spec (chunk minimum advertised and enforced, mounts, partial acknowledgement at any offset in two styles, early 201, four upload-URL relocation styles, monolithic PUT refused, one transient fault at any request); after every nil return the bytes the destination assembled are compared with the source bytes; declared mismatches must fail and leave nothing under the declared digest; well-formed uploads must succeed.",
          "The destination model is harness code in conforming mode (refuses out-of-order chunks with 416+Range, refuses truncated request bodies, verifies the digest at commit). Excluded from must-succeed: non-seekable sources after a refusal/fault, first chunk lost before anything was stored (Range: 0-0 ambiguity), server minimum above the client's limit.", "§3 C05"),
+ "C12": ("fault_enumeration", "server-side request counting / timing lower bounds / result-and-state comparison with the fault-free run, over enumerated fault positions and hostile servers",
+         "(a) attempt bound for every single-request operation against hosts that always fail in one of 9 ways, retry limits 1/2/3/5; (b) back-off and Retry-After lower bounds from server-side instants; (c) 16 operations x referrers API on/off x every request position x 7 retryable faults x 1..limit-1 repetitions, result and raw end state compared with the fault-free run; (d) 150 mirror sets (1.5 k thorough) with random priorities and has/lacks/fails hosts: contact order, fallback, no state-changing request at a mirror for any mutating operation; (e) 10 hostile never-progressing servers with a request-count cap; race-detector reports in internal/reghttp are attributed to this property.",
+         "Retryable = the class the client documents (429 408 500 502 504, connection errors, truncated blob bodies from a range-capable endpoint). Timing clauses are lower bounds only. Two genuine defects are recorded as known findings (ascending mirror priority; referrers probe not absorbing transient faults).", "§3 C12"),
 }
 NOT_APPLICABLE = {}
 
